@@ -16,8 +16,8 @@ THOROUGH = {
     "exhaustive": [("2sess-2mbox-3msgs-depth7", dict(depth=7, maxid=3, mbox=("inbox", "b"), acts=ALL)),
                    ("1sess-2mbox-4msgs-depth8", dict(depth=8, maxid=4, sess=("A",), mbox=("inbox", "b"), acts=ALL,
                                                      sets="SetsMedium"))],
-    "simulate": [("2mbox", dict(mbox=("inbox", "b"), maxid=8, maxpend=8, sets="SetsMedium", acts=ALL), 1200, 32)],
-    "random": 1500,
+    "simulate": [("2mbox", dict(mbox=("inbox", "b"), maxid=8, maxpend=8, sets="SetsMedium", acts=ALL), 800, 32)],
+    "random": 800,
     "gen": dict(length=50, weights={"store": 14, "expunge": 10, "uidexpunge": 8, "copy": 10, "move": 10, "close": 5,
                                     "examine": 4, "append": 8, "search": 0, "fetchbody": 2}),
     "tlc_timeout": 3000,
